@@ -217,3 +217,25 @@ c05_hash_step!(c05_hash_promo_q_w, MoveKind::PromoteQueen, Color::White);
 c05_hash_step!(c05_hash_promo_q_b, MoveKind::PromoteQueen, Color::Black);
 c05_hash_step!(c05_hash_null_w, MoveKind::Null, Color::White);
 c05_hash_step!(c05_hash_null_b, MoveKind::Null, Color::Black);
+
+// ------------------------------------------------------------------------------------------------
+// C01: the glue of Move::validate / semi_validate, with both deciders replaced by free booleans
+// (their contracts are C06/semilegal/* and C01/legal/is-legal/*)
+// ------------------------------------------------------------------------------------------------
+fn stub_is_semilegal(_m: &Move, b: &Board) -> bool { b.r.move_number & 1 == 1 }
+unsafe fn stub_is_legal_unchecked(_m: &Move, b: &Board) -> bool { b.r.move_counter & 1 == 1 }
+harness! {
+    #[kani::unwind(14)]
+    #[kani::stub(Move::is_semilegal, stub_is_semilegal)]
+    #[kani::stub(Move::is_legal_unchecked, stub_is_legal_unchecked)]
+    fn c01_validate_glue() {
+        let b = ab::any_board();
+        let k = vk::any_u8(); vk::assume(k < 10);
+        let mv = ab::any_move_of_kind(rs::mk_kind(k));
+        let semi = b.r.move_number & 1 == 1;
+        let legal = b.r.move_counter & 1 == 1;
+        assert!(mv.semi_validate(&b) == if semi { Ok(()) } else { Err(ValidateError::NotSemiLegal) });
+        assert!(mv.validate(&b) == if !semi { Err(ValidateError::NotSemiLegal) } else if legal { Ok(()) } else { Err(ValidateError::NotLegal) });
+        cover!(semi && !legal);
+    }
+}
